@@ -93,12 +93,6 @@ def offsetPos (o : IntervalDomain) : Option (Option Int) :=
   | some c => some (if o.interval.w = 64 then tryToI64 64 c else none)
   | none => none
 
-/-- `MemRegion::mark_interval_values_as_top(start, end, elem_size)` as compiled (release mode): the sum
-`end + elem_size` wraps in `i64`; a wrapped end below `start` makes `BTreeMap::range` panic (`none`; see
-`mergeValuesIntersectingRangeWithTop` for the empty-map subtlety) -/
-def markIntervalWrapping (r : Region DData) (start end_ : Int) (elemSize : Nat) : Option (Region DData) :=
-  mergeValuesIntersectingRangeWithTop r start (i64 (end_ + (elemSize : Int)))
-
 /-- `AbstractObject` as far as values are concerned: `is_unique` and `memory` -/
 structure Obj where
   unique : Bool
@@ -122,7 +116,7 @@ def setValue (o : Obj) (value : DData) (offset : IntervalDomain) : Option Obj :=
       (insertAtByteIndex o.mem merged c).map fun m => { o with mem := m }
   | none =>
     match tryToOffsetInterval offset with
-    | some (s, e) => (markIntervalWrapping o.mem s e value.size).map fun m => { o with mem := m }
+    | some (s, e) => (markIntervalValuesAsTop o.mem s e value.size).map fun m => { o with mem := m }
     | none => some { o with mem := markAllValuesAsTop o.mem }
 
 /-- `AbstractObject::merge_value` -/
@@ -134,7 +128,7 @@ def mergeValue (o : Obj) (value : DData) (offset : IntervalDomain) : Option Obj 
     (insertAtByteIndex o.mem merged c).map fun m => { o with mem := m }
   | none =>
     match tryToOffsetInterval offset with
-    | some (s, e) => (markIntervalWrapping o.mem s e value.size).map fun m => { o with mem := m }
+    | some (s, e) => (markIntervalValuesAsTop o.mem s e value.size).map fun m => { o with mem := m }
     | none => some { o with mem := markAllValuesAsTop o.mem }
 
 end Obj
